@@ -113,3 +113,51 @@ def emit_extracted(ext, namespace, path, note):
     f = LeanFile(namespace, [], note)
     f.list_def("reflectTable", "Nat × Nat", [f"({o}, {int(b[::-1], 2)})" for o, b in ext["reflect"]])
     return write_if_changed(path, f.text())
+
+
+SECTIONS = ["capabilities", "extensions", "ext_inst_imports", "memory_model", "entry_points", "execution_modes",
+            "debug_string_source", "debug_names", "debug_module_processed", "annotations", "types_global_values"]
+FN_PIECES = ["def", "parameters", "blocks", "end"]
+BLOCK_PIECES = ["label", "instructions"]
+HDR_FIELDS = ["magic_number", "version", "generator", "bound", "reserved_word"]
+
+
+def emit_traversals(R, namespace, path, note):
+    from rusttok import TranslateError
+
+    def ix(names, n, what):
+        if n not in names:
+            raise TranslateError("rspirv/dr/constructs.rs", what, f"unknown field {n}")
+        return names.index(n)
+
+    f = LeanFile(namespace, [], note)
+    for key, lean in (("global_inst_iter", "globalIter"), ("global_inst_iter_mut", "globalIterMut"),
+                      ("all_inst_iter", "allIter"), ("all_inst_iter_mut", "allIterMut")):
+        fields, tail = R[key]
+        f.list_def(lean, "Nat", [str(ix(SECTIONS, x, key)) for x in fields])
+        f.raw(f"def {lean}Tail : Bool := {'true' if tail == 'functions' else 'false'}")
+    for key, lean in (("fn_all_inst_iter", "fnIter"), ("fn_all_inst_iter_mut", "fnIterMut")):
+        pieces, bo = [], None
+        for p in R[key]:
+            if isinstance(p, tuple):
+                pieces.append(str(ix(FN_PIECES, p[0], key)))
+                if bo is not None:
+                    raise TranslateError("rspirv/dr/constructs.rs", key, "two block chains")
+                bo = [str(ix(BLOCK_PIECES, b, key)) for b in p[1]]
+            else:
+                pieces.append(str(ix(FN_PIECES, p, key)))
+        f.list_def(lean, "Nat", pieces)
+        f.list_def(lean + "Block", "Nat", bo or [])
+    kinds = {("opt", "label"): 0, ("each", "instructions"): 1}
+    f.list_def("asmBlock", "Nat", [str(kinds[s]) if s in kinds else _bad(s, "Block") for s in R["asm_Block"]])
+    kinds = {("opt", "def"): 0, ("each", "parameters"): 1, ("each", "blocks"): 2, ("opt", "end"): 3}
+    f.list_def("asmFunction", "Nat", [str(kinds[s]) if s in kinds else _bad(s, "Function") for s in R["asm_Function"]])
+    kinds = {("opt", "header"): 0, ("call", "global_inst_iter"): 1, ("each", "functions"): 2}
+    f.list_def("asmModule", "Nat", [str(kinds[s]) if s in kinds else _bad(s, "Module") for s in R["asm_Module"]])
+    f.list_def("asmHeader", "Nat", [str(ix(HDR_FIELDS, x, "asm_header")) for x in R["asm_header"]])
+    return write_if_changed(path, f.text())
+
+
+def _bad(s, ty):
+    from rusttok import TranslateError
+    raise TranslateError("rspirv/binary/assemble.rs", f"impl Assemble for {ty}", f"unexpected statement {s}")
